@@ -64,13 +64,35 @@ Theorem C14_single_main : forall sg r0 st0 tr s,
 Proof. exact single_main. Qed.
 Print Assumptions C14_single_main.
 
+(* KNOWN FINDING same-manifest-race: the clause "exactly the live manifests" does not hold
+   when a push and a delete of the SAME manifest overlap: both calls return nil, the
+   manifest is gone, the index still lists it (C14_no_lost_update still holds: the index is
+   the fold of the accepted changes - it is the order of the manifest PUT / DELETE
+   exchanges relative to the index updates that is not controlled) *)
+Theorem C14_listing_is_live_refuted :
+  exists m, mrun false (init (Some [race_A]) [], [1]) race_trace = Some m /\
+    quiescent (fst m) /\
+    pcs (fst m) 0%nat = Done ROk /\ pcs (fst m) 1%nat = Done ROk /\
+    memb (reg (fst m)) 1 = true /\ is_live 1 m = false.
+Proof. exact listing_is_live_refuted. Qed.
+Print Assumptions C14_listing_is_live_refuted.
+
+(* ... whereas for SEQUENTIAL histories (one push / delete at a time, no failure) the index
+   lists exactly the live referrers, whatever the pre-existing duplicates / empty entries
+   (function-level statement about applyReferrerChanges between the manifest PUT / DELETE;
+   for concurrent operations on DIFFERENT manifests the clause is judged by the oracle) *)
+Theorem C14_sequential_listing_is_live_partial : forall cs st,
+  changes_nonempty cs -> tracks st -> tracks (fold_left seq_op cs st).
+Proof. exact sequential_listing_is_live. Qed.
+Print Assumptions C14_sequential_listing_is_live_partial.
+
 (* the protocol never blocks by itself: in every reachable state in which some caller
-   is inside updateReferrersIndex some event is enabled (a caller can assign, a waiting
+   is inside updateReferrersIndex some event other than a new call is enabled (a caller can assign, a waiting
    member can take the main status, the main caller's next lock region / exchange can
    happen with either outcome, a returned caller can release the Pool entry) *)
 Theorem C14_no_deadlock : forall sg r0 st0 tr s,
   run sg (init r0 st0) tr = Some s -> (exists t, holding (pcs s t) = true) ->
-  exists e s', step sg s e = Some s'.
+  exists e s', is_env e = false /\ step sg s e = Some s'.
 Proof. exact no_deadlock. Qed.
 Print Assumptions C14_no_deadlock.
 
@@ -81,7 +103,7 @@ Print Assumptions C14_no_deadlock.
 Theorem C14_bounded_completion : forall sg r0 st0 tr s,
   run sg (init r0 st0) tr = Some s ->
   exists bound, forall tr' s',
-    forallb (fun e => negb (is_get e)) tr' = true -> run sg s tr' = Some s' ->
+    forallb (fun e => negb (is_env e)) tr' = true -> run sg s tr' = Some s' ->
     (length tr' <= bound)%nat.
 Proof. exact bounded_completion. Qed.
 Print Assumptions C14_bounded_completion.
@@ -98,6 +120,21 @@ Theorem C14_no_lost_update : forall sg r0 st0 tr s,
   (forall k, memb (reg s) k = member_after k (memb r0 k) (map (arg s) (lin s))).
 Proof. exact no_lost_update. Qed.
 Print Assumptions C14_no_lost_update.
+
+(* what Referrers() / Predecessors() return through the tag schema (referrersByTagSchema =
+   clean the fetched index with applyReferrerChanges(_, nil), then filter), in every
+   reachable state: every key once, no empty descriptor, as a set the fold of the changes of
+   the calls that took effect (C14_no_lost_update says which ones those are at quiescence);
+   a filtered listing only has entries of the requested artifact type *)
+Theorem C14_listing : forall sg r0 st0 tr s,
+  run sg (init r0 st0) tr = Some s ->
+  NoDup (keys (list_referrers (reg s) 0)) /\
+  Forall (fun d => nonempty d = true) (list_referrers (reg s) 0) /\
+  (forall k, In k (keys (list_referrers (reg s) 0)) <->
+             member_after k (memb r0 k) (map (arg s) (lin s)) = true) /\
+  (forall art d, In d (list_referrers (reg s) art) -> art = 0 \/ dart d = art).
+Proof. exact listing_is_fold. Qed.
+Print Assumptions C14_listing.
 
 (* at every instant, for a caller that has returned: its change is part of the
    index iff it did not get a plain error; in particular a failed deletion of the
@@ -119,8 +156,8 @@ Proof. exact arg_stable. Qed.
 Print Assumptions C14_arg_stable.
 
 (* superseded index manifests: when nobody is updating, every index manifest in
-   the registry is the current one or is [junk]; without SkipReferrersGC and without
-   a failed deletion junk is what was there before *)
+   the registry is the current one or is [junk] (dangling before the run, or left by a
+   failed / skipped deletion); C14_gc_clean: the superseded INITIAL index is deleted too *)
 Theorem C14_gc : forall sg r0 st0 tr s,
   run sg (init r0 st0) tr = Some s -> (forall t, is_main (pcs s t) = false) ->
   forall x, In x (store s) -> reg s = Some x \/ In x (junk s).
@@ -131,8 +168,15 @@ Theorem C14_gc_clean : forall r0 st0 tr s,
   run false (init r0 st0) tr = Some s ->
   forallb (fun e => negb (del_failed e)) tr = true ->
   (forall t, is_main (pcs s t) = false) ->
-  forall x, In x (store s) -> reg s = Some x \/ In x st0.
+  forall x, In x (store s) -> reg s = Some x \/ (In x st0 /\ r0 <> Some x).
 Proof. exact gc_clean. Qed.
+Print Assumptions C14_gc_clean.
+
+(* ... and with failed deletions: at most one more dangling index per failed deletion *)
+Theorem C14_gc_count : forall tr s s',
+  run false s tr = Some s' ->
+  length (junk s') = (length (junk s) + length (filter del_failed tr))%nat.
+Proof. exact junk_count. Qed.
 Print Assumptions C14_gc_clean.
 
 (* SetReferrersCapability: the state leaves Unknown with the first call and never
@@ -242,3 +286,8 @@ Example delivery_ex :
   | None => False
   end.
 Proof. vm_compute. repeat split. Qed.
+
+Example tracks_ex : tracks (None, []) /\
+  fold_left seq_op [Add dA; Add dB; Remove dA; Add dC] (None, []) = (Some [dB; dC], [3; 2]) /\
+  forallb (fun k => Bool.eqb (memb (Some [dB; dC]) k) (negb (k =? 0) && existsb (N.eqb k) [3; 2])) [0; 1; 2; 3; 4] = true.
+Proof. split; [intro k; reflexivity|split; vm_compute; reflexivity]. Qed.
